@@ -43,16 +43,18 @@ theorem C09_crash_in_read_keeps_every_wal_file (c : Cfg) (p : Proc) (kind n : Na
     | none => simp [step, hi, withInst]
     | some i =>
       simp only [step, hi, withInst]
-      split
-      · rw [files_dieWith]; simp [files_readNext]
-      · simp [files_readNext]
+      repeat' split
+      all_goals first
+        | (rw [files_dieWith]; simp [files_readNext])
+        | simp [files_readNext]
   · cases hi : p.inst with
     | none => simp [step, hi, withInst]
     | some i =>
       simp only [step, hi, withInst]
-      split
-      · rw [files_dieWith]; simp [files_batchRead]
-      · simp [files_batchRead]
+      repeat' split
+      all_goals first
+        | (rw [files_dieWith]; simp [files_batchRead])
+        | simp [files_batchRead]
 
 /-- the index persists of one `read_next` (the events between which hook H1 can kill the process):
 at most two, and only positions of the topic being read — so the index file after a crash inside a
